@@ -350,6 +350,30 @@ def run(ctx: Context, rep) -> None:
            f"stop sentinels=range({norm(sentinels)})",
            message="the three counts must be the same expression, every "
            "constructed worker is started")
+    # the stop batch is unconditional: whenever the to-process queue exists,
+    # every normal path through finish_and_reset runs the sentinel loop (a
+    # worker that got no sentinel blocks forever in get(); the trailing
+    # sentinels of the input stream are fed one per dequeued result only)
+    from sa.cfg import TRUTHY as _T
+    rcfg = ctx.cfg(reset, {"self._to_process": _T})
+    heads = [n for n in rcfg.nodes if n.kind == "for" and isinstance(
+        n.ast, ast.For) and any(
+            isinstance(c_, ast.Call) and isinstance(c_.func, ast.Attribute) and
+            c_.func.attr == "put" and "StopSentinel" in norm(c_)
+            for c_ in ast.walk(n.ast))]
+    if not heads:
+        raise AnalysisError("C13.count: sentinel loop not found in the CFG of "
+                            "finish_and_reset")
+    skipped = rcfg.exit in rcfg.reachable(
+        [rcfg.entry], avoiding=heads,
+        follow=lambda a, b, lab: lab not in ("exc", "raise"))
+    rep.ob("C13.count", not skipped, loc=reset.loc(heads[0].ast),
+           where=reset.qualname,
+           construct="queue exists => for _ in range(threads): put(StopSentinel())",
+           message="the stop batch must not be conditional on anything but "
+           "the existence of the queue: every started worker needs a sentinel",
+           path=rcfg.describe_path(rcfg.path_to(rcfg.exit, avoiding=heads))
+           if skipped else "")
     # every collector is started: `for c in collectors: c.start()`
     for c in starts:
         loop = parent(parent(c))
@@ -568,6 +592,9 @@ def run(ctx: Context, rep) -> None:
 
 _LP = "src/sedpack/io/itertools/lazy_pool.py"
 SELFTESTS = [
+    dict(rule="C13.count", name="stop-batch-conditional", expect="fire", path=_LP,
+         old="        for _ in range(self._threads):\n            self._to_process.put(StopSentinel())\n        self._to_process = None\n",
+         new="        if self._active_threads:\n            for _ in range(self._threads):\n                self._to_process.put(StopSentinel())\n        self._to_process = None\n"),
     dict(rule="C13.count", name="one-worker-less", expect="fire", path=_LP,
          old="            ) for _ in range(self._threads)\n",
          new="            ) for _ in range(self._threads - 1)\n"),
